@@ -1,6 +1,6 @@
 """C06 — passes run in the documented order and compose (driver part: all tables)."""
 import random, re
-from .. import common, corpus, suite_translate as st
+from .. import common, corpus, trace, suite_translate as st
 
 THEOREMS = [
     "Lou.C06.fwdPassList_eq_doc", "Lou.C06.backPassList_eq_rev", "Lou.C06.fwd_stage_order",
@@ -87,7 +87,7 @@ def layer_b(v, exe, rng, tier, dist):
     ntab = 150 if tier == "quick" else 5000
     cases = []
     for i in range(ntab):
-        t = G.gen_table(rng, "multipass", per_stage=(0, 3), literal_only=True, biased=(i % 2 == 0))
+        t = G.gen_table(rng, "multipass" if i % 3 else "composite", per_stage=(0, 3), literal_only=True, biased=(i % 2 == 0))
         txt = t.text()
         tn = "lb%d.ctb" % i
         ops = ["DUMP %s" % tn]
@@ -113,11 +113,15 @@ def layer_b(v, exe, rng, tier, dist):
                 u += list(rng.choice(lits)) if (lits and rng.random() < 0.7) else rnd()
             return u[:12]
         for _ in range(6 if tier == "quick" else 10):
-            u = mix(lit_c, lambda: G.rand_text(rng, t, 2, undefined=0.03))
+            u = mix(lit_c, lambda: (G.rand_text_rules(rng, t, 4) if rng.random() < 0.4 else G.rand_text(rng, t, 2, undefined=0.03)))
             cap = rng.choice([len(u), len(u) + 1, 2 * len(u) + 2, 40, 3, 1])
-            ops.append("FWD %s 4 %d - 128 %s - -" % (tn, cap, common.wide(u)))
+            # position arrays and a cursor on most calls: the whole-call comparison (MCALL) covers them
+            am = rng.choice([0, 12, 28, 28, 20, 24])
+            cur = lambda n: str(rng.randint(0, n - 1)) if (am & 16 and n > 0) else "-"
+            amf = lambda n: 128 | (am if n > 0 else am & ~16)        # (a cursor needs an element to stand on)
+            ops.append("FWD %s 4 %d %s %d %s - -" % (tn, cap, cur(len(u)), amf(len(u)), common.wide(u)))
             c = [0x8000 | d for d in mix(lit_d, lambda: [x & 0x7fff for x in G.rand_cells(rng, t, 2, undefined=0.03)])]
-            ops.append("BWD %s 4 %d - 128 %s - -" % (tn, cap, common.wide(c)))
+            ops.append("BWD %s 4 %d %s %d %s - -" % (tn, cap, cur(len(c)), amf(len(c)), common.wide(c)))
         cases.append(common.Case("c06-lb%d" % i, ["HOOK trace 1", "HOOK budget 200000", "TBL %s %s" % (tn, common.hexbytes(txt))], ops,
                                  {"tn": tn, "text": txt}))
     from .. import gen_features as GF
@@ -159,6 +163,11 @@ def layer_b(v, exe, rng, tier, dist):
             R = common.parse_R(o)
             if R is None:
                 continue
+            if c.id.startswith("c06-lb") and "ti" in R:
+                t_ = op.split(" ")
+                lines.append(" ".join(["MCALL", "B" if t_[0] == "BWD" else "F", c.meta["tn"], t_[2], t_[3], t_[4], str(int(t_[5]) & 31),
+                                       t_[6], "-", R.get("disp", ".")]))
+                tags.append(("call", c, op, R))
             for pr in R["passes"]:
                 if pr["pass"] == 1:
                     continue
@@ -180,6 +189,21 @@ def layer_b(v, exe, rng, tier, dist):
                                 "its test starts with at the position it is tried, a rule sits in the chain of another stage, or a "
                                 "chain is not ordered by decreasing key length then definition" % what,
                                 {"script": tg[1].setup + [tg[1].ops[0]], "table_text": tg[1].meta.get("text", "")[:2000], "finding": m[:400]})
+            continue
+        if tg[0] == "call":
+            # the whole call from the model alone (driver model + main-pass model + stage models; nothing from the trace)
+            _, c, op, R = tg
+            if m.startswith("UNSUPPORTED") or m == "BADOP":
+                n["calls_unsupported"] = n.get("calls_unsupported", 0) + 1
+                continue
+            n["calls_compared"] = n.get("calls_compared", 0) + 1
+            v.cov["evaluations"] += 1
+            ok, detail, _e, _n, _f = trace.compare(op, R, m)
+            if len(R["passes"]) > 1:
+                n["calls_multistage"] = n.get("calls_multistage", 0) + 1
+                v._distinct.add(("call", c.id, op))
+            if ok is False:
+                bad.append("whole call %s\n%s\n%s" % (op[:160], detail[:1500], c.meta["text"][:600]))
             continue
         c, op, pr = tg
         if m.startswith("UNSUPPORTED"):
